@@ -9,9 +9,10 @@ _RULE = (" `seeker`: a case = a world (view, b-tree leaves, staging, overlay cha
          "loads in progress; no waiter lost; reads in flight match submitted slab entries; no panic; no stall except `!has_room` with every load idle.")
 EXTRA = {
     "C05": {"runs": [_RUN], "rule": _RULE,
-            "assumptions": ["T5_seeker_is_proveSpec_statement (the Seeker refines the request-level operations of T5_seek_is_proveSpec) is checked by the "
-                            "differential and by kernel-evaluated instances, not proved in general",
-                            "the Seeker makes progress only while fewer than MAX_INFLIGHT page loads are parked by misprobes at once "
-                            "(T5_seeker_stall_all_loads_idle_counterexample)"]},
+            "assumptions": ["the hash table holds every stored page at a bucket its probe sequence reaches (HtOK) — what bitbox's allocate / "
+                            "probe units establish",
+                            "T5_seeker_no_stall_partial covers the loads (a read in flight unless all MAX_INFLIGHT loads are parked at once: "
+                            "T5_seeker_stall_all_loads_idle_counterexample); that a request waiting for nothing is always in idle_requests "
+                            "is checked by the harness oracle, not proved"]},
     "C13": {"runs": [_RUN], "rule": _RULE},
 }
